@@ -169,8 +169,12 @@ def _biterr_strategy(tier):
         axis = None
         if kind == "array" and draw(bools):
             axis = draw(axes[len(shape)])
+        # memory layout of the second array (same logical values)
+        layout_b = "C"
+        if kind == "array" and len(shape) >= 2 and draw(mixed):
+            layout_b = "F"
         return dict(part="biterr", kind=kind, dtype=dtype, dtype_b=dtype_b,
-                    shape=shape, a=a, b=b, axis=axis)
+                    shape=shape, a=a, b=b, axis=axis, layout_b=layout_b)
     return build()
 
 
@@ -478,6 +482,15 @@ def _check_gray(case, ctx):
         what = "binary2gray(gray2binary(n))"
         model = [_ref_b2g(_chain_8421(v)) for v in vals]
     got = _unhold(out, kind, shape, what, tags)
+    if kind == "array":
+        # the user compares the result with the array he passed in: that
+        # array must still hold his integers
+        x_after = [int(v) for v in np.asarray(x).reshape(-1).tolist()]
+        if x_after != vals:
+            raise Violation("conversion_modified_its_argument", "%s changed "
+                            "the array handed to it (%d of %d elements)" %
+                            (what, sum(a != b for a, b in zip(x_after, vals)),
+                             len(vals)), tags)
     wrong = [(v, g) for v, g in zip(vals, got) if v != g]
     if wrong:
         tags["fail_min_bits"] = min(v.bit_length() for v, _ in wrong)
@@ -514,10 +527,13 @@ def _check_biterr(case, ctx):
     if dtype_b != dtype:
         ctx.label("biterr:mixed_dtypes")
         tags["dtype_b"] = dtype_b
-    res = count_bit_errors(_hold(a, kind, dtype, shape),
-                           _hold(b, kind, dtype_b, shape)) if axis is None \
-        else count_bit_errors(_hold(a, kind, dtype, shape),
-                              _hold(b, kind, dtype_b, shape), axis)
+    hb = _hold(b, kind, dtype_b, shape)
+    if case.get("layout_b", "C") == "F" and kind == "array":
+        hb = np.asfortranarray(hb)
+        ctx.label("biterr:second_fortran_order")
+    ha = _hold(a, kind, dtype, shape)
+    res = count_bit_errors(ha, hb) if axis is None \
+        else count_bit_errors(ha, hb, axis)
     if axis is None:
         if np.ndim(res) != 0:
             raise Violation("biterr_shape", "result of shape %r without axis"
